@@ -676,6 +676,26 @@ def lemma_L3(prog, res):
             res.add("C08.open_clears_its_cache", "holds" if (m.cleared and not m.over) else "violated")
         # laziness: reads during open are header, tail, shdr[0], the two tables -- nothing else
         reads = [ev for ev in p["events"] if ev[0] == "read_exact"]
+        ehdr_ = v.f[0].f[0] if is_ok(v) else env.get("last_ehdr")
+        if ehdr_ is not None and reads:
+            is32_ = ehdr_.f[0].variant == "ELF32"
+            ci_ = 0 if is32_ else 1
+            shes_, phes_ = (40, 32) if is32_ else (64, 56)
+            o_ph, o_sh = ehdr_.f[8].e, ehdr_.f[9].e
+            n_ph16, n_sh16 = ehdr_.f[13].e, ehdr_.f[15].e
+            sh0_size_ = model.field_term("SectionHeader", 5, ci_, o_sh, 64)
+            sh0_info_ = model.field_term("SectionHeader", 7, ci_, o_sh, 32)
+            n_sh = z3.If(n_sh16 == 0, sh0_size_, z3.ZeroExt(48, n_sh16))
+            n_ph = z3.If(n_ph16 == 0xffff, z3.ZeroExt(32, sh0_info_), z3.ZeroExt(48, n_ph16))
+            for ev in reads:
+                pos_, len_ = ev[2], ev[3]
+                allowed = z3.Or(z3.And(z3.ULE(pos_, bv(64)), z3.ULE(len_, bv(64) - pos_)),           # the file header
+                                z3.And(pos_ == o_sh, len_ == shes_),                                 # section header 0 (extended numbering)
+                                z3.And(pos_ == o_sh, len_ == n_sh * bv(shes_)),                      # the section header table
+                                z3.And(pos_ == o_ph, len_ == n_ph * bv(phes_)))                      # the program header table
+                okv, mdl = valid(res, sol, p["pc"], allowed)
+                res.add("C08.open_reads_only_header_and_tables", "holds" if okv else "violated",
+                        "" if okv else f"open reads (pos={z3.simplify(pos_)}, len={z3.simplify(len_)}), which is neither the file header, section header 0 nor a header table: {model_str(mdl, 16)}"[:800], mdl)
         res.add("C08.open_reads_at_most_5_ranges", "holds" if len(reads) <= 6 else "violated", f"{len(reads)} reads")
     res.add("C08.no_panic(open_stream)", "holds" if not any(o["name"] == "C08.no_panic(open_stream)" and o["status"] == "violated" for o in res.obligations) else "violated",
             f"{len(sp) + len(fp)} paths")
@@ -1631,3 +1651,87 @@ def lemma_Lprefix(prog, res, classes=("ELF64",), straight=None, looped=None):
                     continue
                 acct(fst, pst)
                 prefix_compare(res, name, ppaths, fpaths)
+
+
+# ---------------------------------------------------------------------------------------------------------
+# Lnoalloc (C06): no MIR body of the slice parser (everything outside elf_stream.rs and the alloc-gated *_to_string helpers)
+# contains a call edge to an allocating function. Path-insensitive (every call terminator of every non-cleanup block counts), hence
+# valid for all inputs with no bound; a reported edge is confirmed natively (counting allocator) before it becomes a VIOLATION.
+
+ALLOC_TYPES = {"Vec", "String", "Box", "Rc", "Arc", "HashMap", "BTreeMap", "HashSet", "BTreeSet", "VecDeque", "BinaryHeap", "CString", "Cow", "RawVec"}
+ALLOC_METHODS = {"to_vec", "to_owned", "to_string", "into_boxed_slice", "into_boxed_str", "into_owned", "with_capacity", "from_utf8_lossy", "format",
+                 "exchange_malloc", "into_vec", "repeat", "to_uppercase", "to_lowercase", "concat", "join"}
+
+
+def is_allocating_callee(callee):
+    c = callee.strip()
+    if re.search(r"(^|[\s<(&])alloc::(?!fmt::Arguments)", c) or "exchange_malloc" in c:
+        return True
+    ty, meth = mir.callee_key(c)
+    if ty in ALLOC_TYPES:
+        return True
+    if meth in ALLOC_METHODS:
+        return True
+    if meth == "collect" and re.search(r"collect::<\s*(Vec|String|Box|alloc::|std::vec|std::string|std::collections|Rc|Arc|HashMap|BTreeMap)", c):
+        return True
+    return False
+
+
+_fn_module_cache = {}
+
+
+def fn_source_module(f, src_root):
+    m = re.search(r"<impl at src/([\w/]+)\.rs", f.path)
+    if m:
+        return m.group(1)
+    parts = f.path.split("::")
+    if len(parts) > 1 and parts[0].islower():
+        return parts[0]
+    # free function printed without its module: look its definition up in the sources
+    name = re.sub(r"<.*", "", parts[0])
+    if not _fn_module_cache:
+        srcdir = os.path.join(src_root, "src")
+        for fn in sorted(os.listdir(srcdir)):
+            if fn.endswith(".rs"):
+                for mm in re.finditer(r"\bfn\s+(\w+)", open(os.path.join(srcdir, fn)).read()):
+                    _fn_module_cache.setdefault(mm.group(1), set()).add(fn[:-3])
+    mods = _fn_module_cache.get(name, set())
+    return sorted(mods)[0] if len(mods) == 1 else ("?" + "|".join(sorted(mods)))
+
+
+def lemma_noalloc(prog, res):
+    fns = []
+    for key, lst in prog.by_key.items():
+        fns.extend(lst)
+    seen = set()
+    n_calls = n_fns = 0
+    for f in fns:
+        if id(f) in seen:
+            continue
+        seen.add(id(f))
+        mod = fn_source_module(f, prog.src_root)
+        if mod == "elf_stream" or (mod == "to_str" and "_to_string" in f.path):
+            continue          # the stream parser owns buffers by design; *_to_string return String and are gated by the alloc feature
+        n_fns += 1
+        bad = []
+        for bb, (stmts, term, cleanup) in f.blocks.items():
+            if cleanup or not term:
+                continue
+            m = re.match(r"^(.+?) = (.+) -> \[return: (bb\d+)", term) or re.match(r"^(.+?) = (.+) -> unwind", term)
+            if not m:
+                continue
+            try:
+                callee, _ = sym.split_call(m.group(2))
+            except Exception:
+                continue
+            n_calls += 1
+            if is_allocating_callee(callee):
+                bad.append((bb, callee))
+        res.stats["queries"] += 1
+        res.add(f"C06.no_allocating_callee({f.path[:120]})", "violated" if bad else "holds",
+                "" if not bad else f"{f.path} ({bb_list(bad)}) calls an allocating function on some path of the slice parser")
+    res.add("Lnoalloc.witness.bodies_scanned", "holds" if n_fns >= 100 and n_calls >= 300 else "inconclusive", f"{n_fns} MIR bodies, {n_calls} call edges")
+
+
+def bb_list(bad):
+    return "; ".join(f"{bb}: {c[:100]}" for bb, c in bad[:4])
